@@ -367,15 +367,31 @@ class Prog:
         pat = P(pat)
         return [b for n, b in self.bodies.items() if pat.search(n)]
 
-    def group(self, root):
-        """a function and all bodies nested in it (closures, async/stream coroutine bodies)"""
+    def group(self, root, raw=False):
+        """a function and all bodies nested in it (closures, async/stream coroutine bodies) - like `body`, seen with the private helpers
+        spliced in: each member is the inlined member, and the closures of the helpers spliced into it belong to the group as well.
+        raw=True: exactly as compiled."""
         if isinstance(root, Body):
             root = root.root
         out = []
         if root in self.bodies:
             out.append(self.bodies[root])
         out.extend(self.children.get(root, []))
-        return out
+        if raw:
+            return out
+        cache = self.__dict__.setdefault('_grp', {})
+        if root not in cache:
+            res, helpers = [], []
+            for m in out:
+                im = self.inlined(m)
+                res.append(im)
+                helpers += getattr(im, 'inlined_from', [])
+            for r in dict.fromkeys(helpers):
+                for ch in self.children.get(r, []):
+                    if not (ch.name == r + '::{closure#0}' and ch.rec.get('coroutine')):     # (that one is the spliced body itself)
+                        res.append(self.inlined(ch))
+            cache[root] = res
+        return list(cache[root])
 
     def group_calls(self, root, pat=None):
         out = []
@@ -407,6 +423,8 @@ class Prog:
         for c in self.group_calls(root):
             for n in self.callee_bodies(c):
                 out.add(self.bodies[n].root)
+        for g in self.group(root):          # helpers spliced into the group are callees all the same
+            out |= set(getattr(g, 'inlined_from', []))
         return out
 
     def reach(self, root, depth=8):
@@ -535,23 +553,54 @@ class Prog:
 _ANCHORED = {}
 
 
-def _anchored_names():
-    """functions a rule names are anchors and are never dissolved into their caller: a pattern matching every function whose last
-    path segment occurs in a path (`..::name`) in the rule files"""
-    if 'pat' not in _ANCHORED:
+class _Anchored:
+    """functions a rule names are anchors and are never dissolved into their caller. A function is named when the rule files contain
+    its last two path segments as a path (`Manifest::replay`, `ops::safen_dividend`) or its last segment as a bare string
+    (`E + 'value_is'`); for `<T as Trait>::m` forms, when `m` occurs in any path. (`IndexFooter::decode` is not `BlockMeta::decode`.)"""
+    pattern = 'anchored-names'
+
+    def __init__(self):
         import glob
         import os
-        words = set()
+        self.pairs, self.bare, self.last = set(), set(), set()
         here = os.path.dirname(os.path.abspath(__file__))
         for f in glob.glob(os.path.join(here, '..', 'rules', '*.py')):
             with open(f) as fh:
-                txt = fh.read()
-                # names written as part of a path (`Type::method`, `::(push|insert)$`), not the prose of the rule texts
-                words |= set(re.findall(r'::([A-Za-z_][A-Za-z0-9_]*)', txt))
-                words |= set(re.findall(r'''['"]([A-Za-z_][A-Za-z0-9_]*)['"]''', txt))      # E + 'value_is'
-                for alt in re.findall(r'::\(\??:?([A-Za-z0-9_|]+)\)', txt):
-                    words |= set(alt.split('|'))
-        _ANCHORED['pat'] = re.compile(r'(?:^|::|>::)(?:' + '|'.join(sorted(re.escape(w) for w in words if len(w) > 2)) + r')$')
+                txt = re.sub(r'<[^<>\n]*>', '', fh.read())       # `Builder::<S>::build` is written with its generics
+            for a, b in re.findall(r'([A-Za-z_][A-Za-z0-9_]*)::([A-Za-z_][A-Za-z0-9_]*)', txt):
+                self.pairs.add((a, b))
+                self.last.add(b)
+            # `A::B::c`: overlapping pairs
+            for m in re.finditer(r'(?=([A-Za-z_][A-Za-z0-9_]*)::([A-Za-z_][A-Za-z0-9_]*))', txt):
+                self.pairs.add((m.group(1), m.group(2)))
+                self.last.add(m.group(2))
+            for alt in re.findall(r'::\(\??:?([A-Za-z0-9_|]+)\)', txt):
+                self.last |= set(alt.split('|'))
+            # names given as bare strings and glued to a module path later (`E + 'value_is'`, `for fn in ('is_less_than', ..)`): snake_case
+            # identifiers only - a quoted `decode` or `new` is more often a word than a function
+            self.bare |= {w for w in re.findall(r'''['"]([a-z][a-z0-9_]*_[a-z0-9_]*)['"]''', txt)}
+
+    def search(self, name):
+        n = name
+        while True:
+            n2 = re.sub(r'<[^<>]*>', '', n)
+            if n2 == n:
+                break
+            n = n2
+        segs = [x for x in n.split('::') if x]
+        if not segs:
+            return False
+        m = segs[-1]
+        if m in self.bare:
+            return True
+        if name.startswith('<') or len(segs) < 2:
+            return m in self.last
+        return (segs[-2], m) in self.pairs
+
+
+def _anchored_names():
+    if 'pat' not in _ANCHORED:
+        _ANCHORED['pat'] = _Anchored()
     return _ANCHORED['pat']
 
 
